@@ -14,8 +14,19 @@ Implementation side: real `Memory.reduce_size` on stores built on disk in a scra
 * `clear_location` faults are injected through a registered `FileSystemStoreBackend` subclass (the stale NFS handle of the
   code comment: the victim is removed and `OSError(ESTALE)` raised); the same subclass records the calls made;
 * `bytes_limit` as int or as a string of the modelled grammar; a separate stream feeds `memstr_to_bytes` directly.
+* INTERRUPTION: the same backend subclass can make `clear_location` call number `stop` raise something the loop does not
+  swallow (KeyboardInterrupt / MemoryError / RuntimeError) before it removes anything, and it records which inventoried
+  entries are gone after EVERY call: the order of the removals is observable, so "what has been removed so far is a
+  prefix of the LRU order" is judged after every prefix of the deletion loop and on the store an interruption leaves;
+* HISTORIES on ONE Memory object: after a `reduce_size` (which inventoried the store) the store is changed behind the
+  object's back - a function cleared and its entries recomputed for the same arguments with ANOTHER result size, entries
+  rewritten in place by `MemorizedFunc.call()`, removed by hand / by another Memory object, access times changed, entries
+  added, synthetic entries rewritten, the whole store cleared - and `reduce_size` is called again with limits around the
+  NEW totals; every round is judged against the tree read from disk by the harness just before the call.
 The oracle never uses the model: it judges the directories left on disk against the harness's own inventory.
 """
+
+import copy
 
 import datetime
 import errno
@@ -44,6 +55,9 @@ REQUIRED_THEOREMS = [
     "C18.memstr_exact",
     "C18.memstr_rejects_bad_unit",
     "C18.no_limits_no_change",
+    "C18.interrupted_eviction_is_lru_prefix",
+    "C18.interruption_points",
+    "C18.reduce_size_history_independent",
 ]
 TRUSTED_EXTRA = [
     "modelled, not verified: os.scandir/os.walk listing order and stat results (read by the harness's own walk and given to the "
@@ -57,6 +71,12 @@ TRUSTED_EXTRA = [
     "hash directories nested in hash directories (a cached function / module whose NAME starts with 32 hex digits; a pathlib "
     "store location with such a name) are excluded by the hypotheses Separated / RootNotItem of the end-to-end theorems; "
     "F47, C18.nested_hash_dir_counterexample, C18.hash_named_root_counterexample; the nested stream reproduces it",
+    "interruption of the deletion loop: modelled (reduceSizeInt) and exercised as an exception that is no OSError raised by "
+    "clear_location call number k BEFORE it removes anything (KeyboardInterrupt / MemoryError / RuntimeError injected by the "
+    "registered backend subclass); a process killed in the middle of one rmtree (a half-removed entry) is not modelled",
+    "histories: the model's only state is the directory tree (C18.reduce_size_history_independent is immediate in the model); "
+    "that the CODE keeps no inventory between calls is established by correspondence: every reduce_size of a history on one "
+    "Memory object is compared with the model on the tree the harness read from disk just before the call",
     "memstr_to_bytes as it is (the model follows the code, the malformed stream compares the exception CLASS): '' raises "
     "IndexError (text[-1] is outside the except clause), 'infK' / '1e999K' raise OverflowError (outside the modelled grammar), "
     "'1 K' is accepted (= 1024: float() strips blanks; outside the modelled grammar)",
@@ -68,19 +88,28 @@ _EPOCH = datetime.datetime(1970, 1, 1)
 _US = datetime.timedelta(microseconds=1)
 
 
+# Histories: the size of the result a cached function returns NOW for the arguments (i, n), when it is not n: the same
+# arguments (same entry directory) recomputed later give a result of another size.
+_OVERRIDE = {}
+
+
+def _size_now(f, i, n):
+    return _OVERRIDE.get((f, i, n), n)
+
+
 def _payload(i, n):
     EXEC_LOG.append((0, i))
-    return b"x" * n
+    return b"x" * _size_now(0, i, n)
 
 
 def _payload_b(i, n):
     EXEC_LOG.append((1, i))
-    return b"y" * n
+    return b"y" * _size_now(1, i, n)
 
 
 def _payload_c(i, n):
     EXEC_LOG.append((2, i))
-    return b"z" * n
+    return b"z" * _size_now(2, i, n)
 
 
 _payload_c.__module__ = "c18deep.pkg.sub.mod"  # function directory four levels further down
@@ -116,14 +145,26 @@ def _backend(joblib):
         calls = []
         stale = set()
         armed = False
+        stop = None  # clear_location call number `stop` (0-based) is interrupted ...
+        exc = KeyboardInterrupt  # ... by this exception, which the loop does not swallow, before anything is removed
+        fired = False
+        watch = []  # the inventoried entry directories; after every call: which of them are gone
+        snaps = []
 
         def clear_location(self, location):
-            if Faulty.armed:
-                Faulty.calls.append(location)
+            if not Faulty.armed:
+                return super().clear_location(location)
+            Faulty.calls.append(location)
+            if Faulty.stop is not None and len(Faulty.calls) > Faulty.stop:
+                Faulty.fired = True
+                raise Faulty.exc("interrupted (injected by the C18 harness)")
+            try:
                 if location in Faulty.stale:
                     shutil.rmtree(location, ignore_errors=True)  # the other client's work
                     raise OSError(errno.ESTALE, "Stale file handle", location)
-            super().clear_location(location)
+                super().clear_location(location)
+            finally:
+                Faulty.snaps.append(frozenset(p for p in Faulty.watch if not os.path.isdir(p)))
 
     joblib.register_store_backend("c18faulty", Faulty)
     _BACKEND["cls"] = Faulty
@@ -285,7 +326,9 @@ def _gen_case(rng, big=False):
                             sub=rng.choice([0, 0, 0, 0, 700]) if kind != "real" else 0,
                             suffix=rng.choice(["x", "_tmp", ".bak", "0", "-old"])))
     strays = [s for s in ("file-in-func", "dir31", "dirUPPER", "plain-dir", "file-in-root", "deep-empty") if rng.random() < 0.3]
-    return dict(entries=entries, strays=strays, lim=None, faults=None, no_backend=rng.random() < 0.03)
+    no_backend = rng.random() < 0.03
+    more = 0 if no_backend or rng.random() < 0.78 else rng.choice([1, 1, 2, 2, 3])  # a history on the same Memory object
+    return dict(entries=entries, strays=strays, lim=None, faults=None, no_backend=no_backend, more=more)
 
 
 def _ref_prefix(items, b, il, deadline):
@@ -303,14 +346,15 @@ def _ref_prefix(items, b, il, deadline):
     return len(srt), srt
 
 
-def _limits_for(rng, items):
-    """items: list of (id, size, access). Boundary-biased limits; bytes as int or as a string of the modelled grammar."""
+def _limits_for(rng, items, want_bytes=False):
+    """items: list of (id, size, access). Boundary-biased limits; bytes as int or as a string of the modelled grammar.
+    want_bytes (later rounds of a history): a byte limit most of the time, the other limits more rarely."""
     n = len(items)
     tot = sum(s for _, s, _ in items)
     srt = sorted(items, key=lambda t: t[2])
     suffix_sums = [sum(s for _, s, _ in srt[j:]) for j in range(n + 1)]
     b_choices = [0, tot, tot - 1, tot + 1] + suffix_sums + [x + d for x in suffix_sums for d in (-1, 1)]
-    b = None if rng.random() < 0.4 else max(0, rng.choice(b_choices))
+    b = None if rng.random() < (0.1 if want_bytes else 0.4) else max(0, rng.choice(b_choices))
     bstr = None
     r = rng.random()
     if r < 0.12:
@@ -319,10 +363,10 @@ def _limits_for(rng, items):
         bstr = _frac_str(b, rng.choice("KKM"))  # the exact-fit (+-1 byte) value spelt as fractional K / M
         if not _in_budget(bstr):
             bstr = None
-    il = None if rng.random() < 0.45 else rng.choice([0, 1, n - 1, n - 1, n - 2, n, n + 1, rng.randint(0, n + 2)])
+    il = None if rng.random() < (0.75 if want_bytes else 0.45) else rng.choice([0, 1, n - 1, n - 1, n - 2, n, n + 1, rng.randint(0, n + 2)])
     if il is not None and il < 0:
         il = 0
-    j = None if rng.random() < 0.45 else rng.choice(list(range(-1, n + 3)))
+    j = None if rng.random() < (0.75 if want_bytes else 0.45) else rng.choice(list(range(-1, n + 3)))
     return b, bstr, il, j
 
 
@@ -376,10 +420,57 @@ def _oracle(items, deleted_ids, b, il, deadline):
 # ----------------------------------------------------------------------------- one store case
 
 
+def _make_synth(e, fd):
+    """One synthetic entry directory below the function directory `fd`."""
+    name = "%032x" % (0xABC000 + e["arg"])
+    if e["kind"] == "prefix":
+        name += e["suffix"]
+    p = os.path.join(fd, name)
+    os.makedirs(p, exist_ok=True)
+    main = "metadata.json" if e["kind"] == "incomplete" else "output.pkl"
+    if e["kind"] == "pklgone":
+        os.symlink(os.path.join(p, "no-such-target"), os.path.join(p, "output.pkl"))  # getatime(output.pkl) raises
+        main = "metadata.json"
+    with open(os.path.join(p, main), "wb") as fh:
+        fh.write(b"\0" * e["size"])
+    if e["extra"]:
+        with open(os.path.join(p, "metadata.json" if main == "output.pkl" else "extra.bin"), "wb") as fh:
+            fh.write(b"\1" * e["extra"])
+    if e.get("sub"):  # a sub-directory inside the entry: its files are not part of the entry's size
+        os.makedirs(os.path.join(p, "parts", "deeper"), exist_ok=True)
+        with open(os.path.join(p, "parts", "blob"), "wb") as fh:
+            fh.write(b"\2" * e["sub"])
+        with open(os.path.join(p, "parts", "deeper", "blob"), "wb") as fh:
+            fh.write(b"\3" * 11)
+    if e["kind"] == "unreadable":
+        os.symlink(os.path.join(p, "no-such-target"), os.path.join(p, "vanishing.tmp"))  # getsize raises
+    e["_path"] = p
+    e["_main"] = os.path.join(p, main)
+
+
+def _synth_dir(root, func_dirs, func):
+    fd = func_dirs.get(func)
+    if fd is None or not os.path.isdir(fd):
+        fd = func_dirs.get(func) or os.path.join(root, "synthetic", "mod%d" % func, "func")
+        os.makedirs(fd, exist_ok=True)
+        func_dirs[func] = fd
+    return fd
+
+
+def _apply_times(case, base):
+    """Access time of every live entry that has an output.pkl: base - 1000 k seconds."""
+    for e in case["entries"]:
+        if e["kind"] in ("incomplete", "pklgone") or not os.path.isdir(e["_path"]):
+            continue  # no output.pkl to stat: the age is the directory's atime (refreshed by the first listing)
+        t = base - 1000 * e["k"]
+        os.utime(os.path.join(e["_path"], "output.pkl"), (t, t))
+
+
 def _build_store(ctx, joblib, case, idx):
-    """Creates the store of `case`; returns (mem, cached funcs, location, {relative entry path: entry dict})."""
+    """Creates the store of `case`; returns (mem, cached funcs, location, function directories, base, now)."""
     Faulty = _backend(joblib)
     Faulty.armed = False
+    _OVERRIDE.clear()
     loc = ctx.scratch / f"case{idx}"
     mem = joblib.Memory(str(loc), backend="c18faulty", verbose=0)
     if not isinstance(mem.store_backend, Faulty):
@@ -387,44 +478,17 @@ def _build_store(ctx, joblib, case, idx):
     root = mem.store_backend.location
     cached = [mem.cache(f) for f in _FUNCS]
     func_dirs = {}
-    by_rel = {}
     for e in case["entries"]:
         if e["kind"] == "real":
             ref = cached[e["func"]].call_and_shelve(e["arg"], e["size"])
             fd = os.path.join(root, ref.func_id)
             func_dirs[e["func"]] = fd
             e["_path"] = os.path.join(fd, ref.args_id)
+            e["_cur"] = e["size"]
     for e in case["entries"]:
         if e["kind"] == "real":
             continue
-        fd = func_dirs.get(e["func"])
-        if fd is None:
-            fd = os.path.join(root, "synthetic", "mod%d" % e["func"], "func")
-            os.makedirs(fd, exist_ok=True)
-            func_dirs[e["func"]] = fd
-        name = "%032x" % (0xABC000 + e["arg"])
-        if e["kind"] == "prefix":
-            name += e["suffix"]
-        p = os.path.join(fd, name)
-        os.makedirs(p, exist_ok=True)
-        main = "metadata.json" if e["kind"] == "incomplete" else "output.pkl"
-        if e["kind"] == "pklgone":
-            os.symlink(os.path.join(p, "no-such-target"), os.path.join(p, "output.pkl"))  # getatime(output.pkl) raises
-            main = "metadata.json"
-        with open(os.path.join(p, main), "wb") as fh:
-            fh.write(b"\0" * e["size"])
-        if e["extra"]:
-            with open(os.path.join(p, "metadata.json" if main == "output.pkl" else "extra.bin"), "wb") as fh:
-                fh.write(b"\1" * e["extra"])
-        if e.get("sub"):  # a sub-directory inside the entry: its files are not part of the entry's size
-            os.makedirs(os.path.join(p, "parts", "deeper"), exist_ok=True)
-            with open(os.path.join(p, "parts", "blob"), "wb") as fh:
-                fh.write(b"\2" * e["sub"])
-            with open(os.path.join(p, "parts", "deeper", "blob"), "wb") as fh:
-                fh.write(b"\3" * 11)
-        if e["kind"] == "unreadable":
-            os.symlink(os.path.join(p, "no-such-target"), os.path.join(p, "vanishing.tmp"))  # getsize raises
-        e["_path"] = p
+        _make_synth(e, _synth_dir(root, func_dirs, e["func"]))
     some_fd = next(iter(func_dirs.values()), None)
     for s in case["strays"]:
         if s == "file-in-func" and some_fd:
@@ -443,15 +507,104 @@ def _build_store(ctx, joblib, case, idx):
             os.makedirs(os.path.join(root, "a", "b", "c", "d", "e"), exist_ok=True)
     now = int(time.time())
     base = now - 100000
-    for e in case["entries"]:
-        t = base - 1000 * e["k"]
-        pk = os.path.join(e["_path"], "output.pkl")
-        if e["kind"] in ("incomplete", "pklgone"):
-            continue  # no output.pkl to stat: the age is the directory's atime (refreshed by the first listing)
-        os.utime(pk, (t, t))
-    for e in case["entries"]:
-        by_rel[os.path.relpath(e["_path"], root)] = e
-    return mem, cached, root, by_rel, base, now
+    _apply_times(case, base)
+    return mem, cached, root, func_dirs, base, now
+
+
+# ----------------------------------------------------------------------------- histories: changes behind the inventory
+
+
+def _gen_changes(rng, case):
+    """1..3 changes of the store made behind the Memory object's back, as JSON-able lists (entries by index)."""
+    ents = case["entries"]
+    live = [i for i, e in enumerate(ents) if os.path.isdir(e["_path"])]
+    real = [i for i, e in enumerate(ents) if e["kind"] == "real"]
+    synth_live = [i for i in live if ents[i]["kind"] in ("synth", "prefix")]
+    n = len(ents)
+    newsize = lambda i: rng.choice([s for s in (0, 1, 10, 100, 500, 1000, 1024, 3000, 5000) if s != ents[i].get("_cur")])  # noqa: E731
+    newk = lambda: rng.randint(0, 3) if rng.random() < 0.5 else rng.randint(0, n + 1)  # noqa: E731
+    out = []
+    for _ in range(rng.choice([1, 1, 2, 2, 3])):
+        kinds = ["add"]
+        if real:
+            kinds += ["call", "call", "call", "clear", "clear"]
+        if live:
+            kinds += ["rm", "utime", "utime"]
+        if synth_live:
+            kinds += ["resize", "resize"]
+        if real and rng.random() < 0.15:
+            kinds += ["clear-all"]
+        kind = rng.choice(kinds)
+        if kind == "call":  # MemorizedFunc.call(): computed again and written over the entry (or the entry re-created)
+            i = rng.choice(real)
+            out.append(["call", i, newsize(i), newk()])
+        elif kind == "clear":  # MemorizedFunc.clear() (what a detected code change does), then the same arguments again
+            f = ents[rng.choice(real)]["func"]
+            redo = [[i, newsize(i) if rng.random() < 0.8 else ents[i].get("_cur", ents[i]["size"]), newk()]
+                    for i in real if ents[i]["func"] == f and rng.random() < 0.8]
+            out.append(["clear", f, redo])
+        elif kind == "clear-all":
+            out.append(["clear-all", [[i, newsize(i), newk()] for i in real if rng.random() < 0.7]])
+        elif kind == "rm":
+            out.append(["rm", rng.choice(live), rng.choice(["rmtree", "other-memory"])])
+        elif kind == "utime":
+            out.append(["utime", rng.choice(live), newk()])
+        elif kind == "resize":
+            out.append(["resize", rng.choice(synth_live), rng.choice([0, 1, 7, 512, 1023, 1024, 1025, 2048, 4000])])
+        else:
+            fn = rng.randrange(3)
+            knd = "real" if rng.random() < 0.6 else "synth"
+            out.append(["add", dict(func=fn, kind=knd, arg=200 + n + len(out), size=rng.choice([0, 1, 100, 512, 1024, 3000]),
+                                    k=newk(), extra=rng.choice([0, 0, 300]) if knd != "real" else 0, sub=0, suffix="x")])
+    return out
+
+
+def _apply_changes(joblib, case, changes, mem, cached, root, func_dirs, res):
+    ents = case["entries"]
+
+    def recompute(i, size, k):
+        e = ents[i]
+        _OVERRIDE[(e["func"], e["arg"], e["size"])] = size
+        cached[e["func"]].call(e["arg"], e["size"])
+        e["_cur"], e["k"] = size, k
+
+    for ch in changes:
+        res.count("change=" + ch[0])
+        if ch[0] == "call":
+            recompute(ch[1], ch[2], ch[3])
+        elif ch[0] == "clear":
+            cached[ch[1]].clear(warn=False)
+            for i, size, k in ch[2]:
+                recompute(i, size, k)
+        elif ch[0] == "clear-all":
+            mem.clear(warn=False)
+            for i, size, k in ch[1]:
+                recompute(i, size, k)
+        elif ch[0] == "rm":
+            p = ents[ch[1]]["_path"]
+            if ch[2] == "rmtree":
+                shutil.rmtree(p, ignore_errors=True)
+            else:
+                joblib.Memory(os.path.dirname(root), verbose=0).store_backend.clear_location(p)
+        elif ch[0] == "utime":
+            ents[ch[1]]["k"] = ch[2]
+        elif ch[0] == "resize":
+            e = ents[ch[1]]
+            if os.path.isdir(e["_path"]):
+                with open(e["_main"], "wb") as fh:
+                    fh.write(b"\0" * ch[2])
+        elif ch[0] == "add":
+            e = dict(ch[1])
+            if e["kind"] == "real":
+                ref = cached[e["func"]].call_and_shelve(e["arg"], e["size"])
+                func_dirs[e["func"]] = os.path.join(root, ref.func_id)
+                e["_path"] = os.path.join(root, ref.func_id, ref.args_id)
+                e["_cur"] = e["size"]
+            else:
+                _make_synth(e, _synth_dir(root, func_dirs, e["func"]))
+            ents.append(e)
+        else:
+            raise core.InfraError(f"unknown change {ch!r}")
 
 
 # Local time zone of the process while a case runs: get_items() converts access times with datetime.fromtimestamp and the
@@ -481,16 +634,55 @@ def _run_case(ctx, res, case, idx, requests, pending):
             _set_zone(saved)
 
 
+_EXC = dict(KeyboardInterrupt=KeyboardInterrupt, MemoryError=MemoryError, RuntimeError=RuntimeError)
+
+
+def _stop_for(rng, k):
+    """The clear_location call (0-based) that is interrupted: any of the k expected ones, or k itself (too late to matter)."""
+    if k == 0 or rng.random() < 0.72:
+        return None
+    return rng.choice([0, k - 1, k // 2, rng.randrange(k + 1), rng.randrange(k + 1)])
+
+
+def _prefix_violation(items, gone_ids):
+    """Tie-tolerant 'the removed entries are a prefix of the LRU order': no removed entry was accessed more recently
+    than one that is still there."""
+    D = [t for t in items if t[0] in gone_ids]
+    S = [t for t in items if t[0] not in gone_ids]
+    return bool(D and S and max(a for _, _, a in D) > min(a for _, _, a in S))
+
+
 def _run_case_in_zone(ctx, res, case, idx, requests, pending):
     joblib = core.use_repo()
-    Faulty = _backend(joblib)
     EXEC_LOG.clear()
-    mem, cached, root, by_rel, base, now = _build_store(ctx, joblib, case, idx)
-    tree = _settled_tree(root, any(e["kind"] in ("incomplete", "pklgone") for e in case["entries"]))
+    if "rounds" not in case:  # one reduce_size (+ `more` further rounds, each after changes behind the inventory)
+        first = dict(changes=[], lim=case["lim"], faults=case["faults"])
+        if "stop" in case or case["faults"] is not None:
+            first.update(stop=case.get("stop"), exc=case.get("exc", "KeyboardInterrupt"))
+        case["rounds"] = [first] + [dict() for _ in range(case.get("more", 0))]
+    mem, cached, root, func_dirs, base, now = _build_store(ctx, joblib, case, idx)
+    spec0 = dict(entries=[{k: v for k, v in e.items() if not k.startswith("_")} for e in case["entries"]],
+                 strays=case["strays"], no_backend=case["no_backend"])
+    try:
+        for r, rnd in enumerate(case["rounds"]):
+            if r > 0:
+                if rnd.get("changes") is None:
+                    rnd["changes"] = _gen_changes(ctx.rng(f"chg{idx}r{r}"), case)
+                _apply_changes(joblib, case, rnd["changes"], mem, cached, root, func_dirs, res)
+                _apply_times(case, base)
+            _run_round(ctx, res, case, idx, r, rnd, spec0, mem, cached, root, base, now, requests, pending)
+    finally:
+        _OVERRIDE.clear()
+        shutil.rmtree(ctx.scratch / f"case{idx}", ignore_errors=True)
+
+
+def _run_round(ctx, res, case, idx, r, rnd, spec0, mem, cached, root, base, now, requests, pending):
+    joblib = core.use_repo()
+    Faulty = _backend(joblib)
+    tree = _settled_tree(root, r > 0 or any(e["kind"] in ("incomplete", "pklgone") for e in case["entries"]))
     items = _own_inventory(tree)  # [(relpath, size, atime_us)]
     dirs_before = _dirs_of(tree)
-    spec = dict(entries=[{k: v for k, v in e.items() if not k.startswith("_")} for e in case["entries"]],
-                strays=case["strays"], no_backend=case["no_backend"])
+    spec = spec0
 
     # --- inventory correspondence: model getItems(tree) vs store_backend.get_items()
     try:
@@ -500,16 +692,20 @@ def _run_case_in_zone(ctx, res, case, idx, requests, pending):
         impl_items = "raises:" + type(e).__name__
         res.fail("get_items-raises:" + type(e).__name__, dict(spec=spec), repr(e))
     requests.append("items " + " ".join(_tree_tokens(tree)))
-    pending.append(("items", dict(spec=spec, own_inventory=items), impl_items))
+    pending.append(("items", dict(spec=spec, round=r, own_inventory=items), impl_items))
     nfd = len({os.path.dirname(p) for p, _, _ in items})
     res.count(f"function-dirs-with-entries={nfd}")
     base_names = [os.path.basename(p) for p, _, _ in items]
     if len(set(base_names)) < len(base_names):
         res.count("equal-basenames-in-one-store")
-    # --- limits, faults
-    if case["lim"] is None:
-        case["lim"] = _limits_for(ctx.rng(f"lim{idx}"), items)
-    b, bstr, il, j = case["lim"]
+    # --- limits, faults, interruption
+    if rnd.get("lim") is None:
+        rnd["lim"] = _limits_for(ctx.rng(f"lim{idx}r{r}" if r else f"lim{idx}"), items, want_bytes=r > 0)
+    if isinstance(rnd["lim"], str):  # corpus: a byte limit relative to the total as it is NOW
+        tot = sum(sz for _, sz, _ in items)
+        rnd["lim"] = (max(0, tot + int(rnd["lim"][len("total"):] or 0)), None, None, None)
+    rnd["lim"] = list(rnd["lim"])
+    b, bstr, il, j = rnd["lim"]
     if bstr is not None:
         b_exact, b_arg = _exact_memstr(bstr), bstr
     else:
@@ -519,27 +715,38 @@ def _run_case_in_zone(ctx, res, case, idx, requests, pending):
     else:
         deadline_s = base - 1000 * j - 500
         deadline = _us(deadline_s)  # in the same (naive local) microseconds as the inventory's access times
-        age = datetime.timedelta(seconds=now - deadline_s)
+        age = datetime.timedelta(seconds=int(time.time()) - deadline_s)
     kref, srt = _ref_prefix(items, b_exact, il, deadline)
-    if case["faults"] is None:
-        case["faults"] = _faults_for(ctx.rng(f"faults{idx}"), kref)
-    fault_paths = [srt[r][0] for r in case["faults"] if r < len(srt)]
+    if rnd.get("faults") is None:
+        rnd["faults"] = _faults_for(ctx.rng(f"faults{idx}r{r}" if r else f"faults{idx}"), kref)
+    if "stop" not in rnd:
+        rnd["stop"] = _stop_for(ctx.rng(f"stop{idx}r{r}"), kref)
+        rnd["exc"] = ctx.rng(f"exc{idx}r{r}").choice(sorted(_EXC))
+    stop, exc = rnd["stop"], rnd.get("exc") or "KeyboardInterrupt"
+    fault_paths = [srt[q][0] for q in rnd["faults"] if q < len(srt)]
     all_none = b_arg is None and il is None and age is None
 
     # --- the call
-    Faulty.calls = []
+    Faulty.calls, Faulty.snaps, Faulty.fired = [], [], False
     Faulty.stale = {os.path.join(root, p) for p in fault_paths}
+    Faulty.watch = [os.path.join(root, p) for p, _, _ in items]
+    Faulty.stop, Faulty.exc = stop, _EXC[exc]
     Faulty.armed = True
     target = joblib.Memory(location=None, verbose=0) if case["no_backend"] else mem
     try:
         target.reduce_size(bytes_limit=b_arg, items_limit=il, age_limit=age)
         outcome = "ok"
-    except Exception as e:  # noqa: BLE001
+    except BaseException as e:  # noqa: BLE001
+        if not isinstance(e, Exception) and not (Faulty.fired and type(e) is Faulty.exc):
+            raise  # a real Ctrl-C / SystemExit, not the injected interruption
         outcome = "raises:" + type(e).__name__
     finally:
         Faulty.armed = False
         Faulty.stale = set()
+        Faulty.stop = None
+    interrupted = Faulty.fired and outcome == "raises:" + exc
     calls = [os.path.relpath(p, root) for p in Faulty.calls]
+    snaps = [sorted(os.path.relpath(p, root) for p in sn) for sn in Faulty.snaps]
     tree_after = _read_tree(root, os.path.basename(root))
     dirs_after = _dirs_of(tree_after)
     gone = set(dirs_before) - set(dirs_after)
@@ -549,28 +756,53 @@ def _run_case_in_zone(ctx, res, case, idx, requests, pending):
         impl_items_after = sorted((os.path.relpath(it.path, root), it.size, _dt_us(it.last_access)) for it in inv2)
     except Exception as e:  # noqa: BLE001
         impl_items_after = "raises:" + type(e).__name__
-    desc = dict(spec=spec, lim=[b, bstr, il, j], faults=case["faults"], tz=case["tz"], items=items, bytes_limit=b_arg, items_limit=il,
-                deadline=deadline, fault_paths=fault_paths, deleted=deleted, calls=calls, outcome=outcome)
+    rounds_so_far = copy.deepcopy(case["rounds"][: r + 1])
+    desc = dict(spec=spec, rounds=rounds_so_far, round=r, lim=[b, bstr, il, j], faults=rnd["faults"], stop=stop, exc=exc,
+                tz=case["tz"], items=items, bytes_limit=b_arg, items_limit=il, deadline=deadline, fault_paths=fault_paths,
+                deleted=deleted, calls=calls, outcome=outcome)
     res.evaluations += 1
     res.count(f"n={len(items)}")
+    res.count("round=%s" % (r if r < 3 else "3+"))
     res.count("limits=" + "".join(c if v is not None else "-" for c, v in zip("BIA", (b_arg, il, age))))
     res.count("bytes_limit=" + ("none" if b_arg is None else "str" if bstr is not None else "int"))
     res.count("deleted=" + ("none" if not deleted else "all" if len(deleted) == len(items) else "some"))
-    res.count("faults=" + ("none" if not fault_paths else "first" if case["faults"] == [0] else
-                           "last" if case["faults"] == [kref - 1] else "one" if len(fault_paths) == 1 else "several"))
+    res.count("faults=" + ("none" if not fault_paths else "first" if rnd["faults"] == [0] else
+                           "last" if rnd["faults"] == [kref - 1] else "one" if len(fault_paths) == 1 else "several"))
+    res.count("interruption=" + ("none" if stop is None else "too-late" if not Faulty.fired else
+                                 "before-the-first" if stop == 0 else "at-the-last" if stop == kref - 1 else "in-the-middle"))
     if case["no_backend"]:
         res.count("Memory(location=None)")
-    for e in case["entries"]:
-        res.count("entry-kind=" + e["kind"])
-        if e.get("sub"):
-            res.count("entry-with-sub-directory")
+    if r == 0:
+        for e in case["entries"]:
+            res.count("entry-kind=" + e["kind"])
+            if e.get("sub"):
+                res.count("entry-with-sub-directory")
     if items and not all_none:
-        key = (tuple((os.path.dirname(p), s, a - base * 10**6) for p, s, a in items), b_exact, il, j, tuple(case["faults"]))
+        key = (tuple((os.path.dirname(p), s, a - base * 10**6) for p, s, a in items), b_exact, il, j, tuple(rnd["faults"]), stop,
+               r, repr(rnd["changes"]) if r else "")
         res.nontrivial.add(key)
     res.sample(desc)
 
     # --- oracle on the implementation (the harness's own inventory; never the model)
-    if outcome != "ok":
+    # (1) the ORDER of the removals, seen after every clear_location call: what is gone so far is a prefix of the LRU order
+    for n_done, sn in enumerate(snaps, 1):
+        if _prefix_violation(items, set(sn)):
+            res.fail("eviction-order:removed-so-far-not-lru-prefix", dict(desc, after_calls=n_done, removed_so_far=sn),
+                     f"after {n_done} clear_location calls the entries {sn} are gone while less recently used ones are still there")
+            break
+    if interrupted:
+        # (2) the store an interruption leaves: `stop` calls completed, so the `stop` least recently used entries are gone
+        if _prefix_violation(items, set(deleted)):
+            res.fail("interrupted:evicted-a-more-recent-entry", desc, deleted)
+        if len(deleted) != stop:
+            res.fail("interrupted:removed-count", desc, dict(completed_calls=stop, removed=deleted))
+        for sig in _oracle(items, set(deleted), b_exact, il, deadline):
+            if sig == "evicted-more-than-needed":
+                res.fail("interrupted:" + sig, desc, sig)
+        collateral = sorted(p for p in gone if not any(p == d or p.startswith(d + "/") for d in deleted))
+        if collateral:
+            res.fail("non-entry-directory-removed", desc, collateral)
+    elif outcome != "ok":
         res.fail("reduce_size-" + outcome, desc, outcome)
     else:
         if all_none or case["no_backend"]:
@@ -582,7 +814,9 @@ def _run_case_in_zone(ctx, res, case, idx, requests, pending):
         collateral = sorted(p for p in gone if not any(p == d or p.startswith(d + "/") for d in deleted))
         if collateral:
             res.fail("non-entry-directory-removed", desc, collateral)
-        # survivors stay loadable, evicted ones are recomputed on demand
+    if interrupted or outcome == "ok":
+        # survivors stay loadable, evicted ones are recomputed on demand (with the size the function returns NOW)
+        present = {p for p, _, _ in items}
         for e in case["entries"]:
             if e["kind"] != "real":
                 continue
@@ -596,20 +830,22 @@ def _run_case_in_zone(ctx, res, case, idx, requests, pending):
                 res.fail("entry-unusable-after-reduce", desc, repr(ex))
                 continue
             executed = bool(EXEC_LOG)
-            if v != _FILL[e["func"]] * e["size"]:
+            if executed:
+                e["_cur"] = _size_now(e["func"], e["arg"], e["size"])
+            if v != _FILL[e["func"]] * e["_cur"]:
                 res.fail("wrong-value-after-reduce", desc, spec)
             if rel in deleted and (hit or not executed):
                 res.fail("evicted-entry-still-served", desc, rel)
-            if rel not in deleted and (not hit or executed):
+            if rel in present and rel not in deleted and (not hit or executed):
                 res.fail("survivor-not-served-from-cache", desc, rel)
 
     # --- request for the model
     tok = lambda v: "-" if v is None else str(v)  # noqa: E731
     barg = "-" if b_arg is None else ("s:" + _cps(bstr) if bstr is not None else f"i:{b}")
-    requests.append(" ".join(["reduce", "0" if case["no_backend"] else "1", barg, tok(il), tok(deadline),
-                              str(len(fault_paths))] + fault_paths + _tree_tokens(tree)))
+    head = ["reduce"] if stop is None else ["reducei"]
+    requests.append(" ".join(head + ["0" if case["no_backend"] else "1", barg, tok(il), tok(deadline)] +
+                             ([] if stop is None else [str(stop)]) + [str(len(fault_paths))] + fault_paths + _tree_tokens(tree)))
     pending.append(("reduce", desc, dict(outcome=outcome, calls=calls, dirs=sorted(dirs_after), items=impl_items_after)))
-    shutil.rmtree(ctx.scratch / f"case{idx}", ignore_errors=True)
 
 
 def _parse_items(toks):
@@ -636,10 +872,11 @@ def _judge_store_replies(res, pending, replies):
             if impl["outcome"] != model["outcome"]:
                 res.diverge("reduce_size", desc, impl, model)
             continue
-        if not toks or toks[:2] != ["returned", "calls"]:
+        if not toks or toks[0] not in ("returned", "interrupted") or toks[1:2] != ["calls"]:
             raise core.InfraError(f"driver reply {rep!r}")
-        if impl["outcome"] != "ok":
-            res.diverge("reduce_size:outcome", desc, impl, dict(outcome="ok"))
+        m_outcome = "ok" if toks[0] == "returned" else "raises:" + desc["exc"]
+        if impl["outcome"] != m_outcome:
+            res.diverge("reduce_size:outcome", desc, impl, dict(outcome=m_outcome))
             continue
         k = int(toks[2])
         mcalls = toks[3:3 + k]
@@ -654,9 +891,9 @@ def _judge_store_replies(res, pending, replies):
         mitems, rest = _parse_items(rest[1:])
         if kind == "reduce-no-atime":
             mitems = [(p, s, 0) for p, s, _ in mitems]
-        model = dict(outcome="ok", calls=mcalls, dirs=mdirs, items=mitems)
+        model = dict(outcome=m_outcome, calls=mcalls, dirs=mdirs, items=mitems)
         if impl != model:
-            stream = ("reduce_size:" + ("outcome" if impl["outcome"] != "ok" else "calls" if impl["calls"] != mcalls else
+            stream = ("reduce_size:" + ("outcome" if impl["outcome"] != m_outcome else "calls" if impl["calls"] != mcalls else
                                         "tree-after" if impl["dirs"] != mdirs else "inventory-after"))
             res.diverge(stream, desc, impl, model)
 
@@ -862,6 +1099,30 @@ def _corpus():
              strays=[], lim=(900, None, None, None), faults=[], no_backend=False),
         dict(entries=[dict(e) for e in one], strays=[], lim=(None, None, 0, None), faults=[], no_backend=True),
         dict(entries=[dict(e) for e in one], strays=[], lim=(None, None, None, None), faults=[], no_backend=False),
+        # the deletion loop is left (Ctrl-C, MemoryError, ...) at call number `stop`: the `stop` LRU entries are gone, no other
+        dict(entries=[dict(e) for e in one], strays=[], lim=(None, None, 1, None), faults=[], stop=3, exc="KeyboardInterrupt",
+             no_backend=False),
+        dict(entries=[dict(e) for e in one], strays=[], lim=(0, None, None, None), faults=[], stop=1, exc="RuntimeError",
+             no_backend=False),
+        dict(entries=[dict(e) for e in shared] + [E(2, 1, 3), E(2, 2, 2)], strays=[], lim=(None, None, 2, None), faults=[1],
+             stop=4, exc="MemoryError", no_backend=False),
+        # histories on one Memory object: an inventory (a reduce_size that has nothing to evict), then an entry is computed
+        # again for the same arguments with a BIGGER result (MemorizedFunc.call) - the next reduce_size has to see the new size
+        dict(entries=[dict(e) for e in one], strays=[], no_backend=False, rounds=[
+            dict(changes=[], lim=(None, None, 7, None), faults=[], stop=None),
+            dict(changes=[["call", 5, 3000, 0]], lim="total-1", faults=[], stop=None)]),
+        # ... the function is cleared (what a code change does) and every entry comes back SMALLER: nothing has to go
+        dict(entries=[E(0, a, 9 - a, "real", 1000) for a in range(5)], strays=[], no_backend=False, rounds=[
+            dict(changes=[], lim=(None, None, 9, None), faults=[], stop=None),
+            dict(changes=[["clear", 0, [[a, 10, 9 - a] for a in range(5)]]], lim="total", faults=[], stop=None),
+            dict(changes=[["call", 0, 5000, 0], ["utime", 4, 11]], lim="total-1", faults=[], stop=None)]),
+        # ... a first reduce_size that evicts; entries then removed by hand / by another Memory object, access order reversed
+        dict(entries=[dict(e) for e in shared], strays=[], no_backend=False, rounds=[
+            dict(changes=[], lim=(None, None, 5, None), faults=[], stop=None),
+            dict(changes=[["rm", 5, "other-memory"], ["rm", 4, "rmtree"], ["utime", 3, 12], ["utime", 2, 11]],
+                 lim=(None, None, 2, None), faults=[], stop=None),
+            dict(changes=[["clear-all", [[1, 700, 2], [2, 50, 3]]], ["add", E(1, 77, 1, "synth", 512)]], lim="total-1",
+                 faults=[], stop=None)]),
     ]
 
 
@@ -874,8 +1135,14 @@ def _explore(ctx, n_cases, salt, big=False, cases=None, memstr_n=0, malformed=Tr
                 "arguments across functions, synthetic entries, prefix-named / incomplete / unreadable entries, stray files and "
                 "directories), sizes incl. 0, access times with frequent ties; limits boundary-biased (None, 0, exact fit of every LRU "
                 "suffix, +-1, as int or as fractional K/M string); clear_location faults at the first / middle / last / several selected "
-                "entries; non-trivial = non-empty inventory with at least one limit, distinct by (function directory, sizes, relative "
-                "access times, limits, faults); plus size strings of the modelled grammar (distinct strings)")
+                "entries; the deletion loop interrupted at call 0 / middle / last / any (KeyboardInterrupt, MemoryError, RuntimeError "
+                "raised by clear_location before it removes anything) in ~1/4 of the calls that evict; ~1/5 of the stores get 1-3 "
+                "FURTHER reduce_size calls on the same Memory object, each after 1-3 changes behind the inventory (entry recomputed "
+                "by MemorizedFunc.call() / after MemorizedFunc.clear() / after Memory.clear() with another result size, removed by "
+                "hand or by another Memory object, access time changed, synthetic entry rewritten, entry added) with limits around "
+                "the new totals; non-trivial = non-empty inventory with at least one limit, distinct by (function directory, sizes, "
+                "relative access times, limits, faults, interruption point, round and its changes); plus size strings of the "
+                "modelled grammar (distinct strings)")
     rng = ctx.rng(salt)
     requests, pending = [], []
     todo = cases if cases is not None else _corpus() + [_gen_case(rng, big) for _ in range(n_cases)]
@@ -891,7 +1158,9 @@ def _explore(ctx, n_cases, salt, big=False, cases=None, memstr_n=0, malformed=Tr
     _judge_store_replies(res, pending, replies)
     if memstr_n:
         _memstr_stream(ctx, res, memstr_n)
-    res.assumptions = ["no concurrent writer during reduce_size",
+    res.assumptions = ["no concurrent writer during reduce_size (changes behind the inventory happen BETWEEN two calls)",
+                       "an interruption is an exception leaving clear_location before it removed anything (an entry half removed by "
+                       "a kill in the middle of rmtree is not produced)",
                        "access times >= 400 s away from the deadline (now - age_limit is computed inside the call)",
                        "no entry directory nested in another entry directory (no cached function / module whose name starts with 32 hex digits)",
                        "size strings: digits * unit < 2**53"]
@@ -939,6 +1208,10 @@ def run(ctx):
         c = dict(entries=[dict(e) for e in spec.get("entries", [])], strays=list(spec.get("strays", [])),
                  lim=tuple(case["lim"]) if "lim" in case else None, faults=case.get("faults"),
                  no_backend=spec.get("no_backend", False), tz=case.get("tz"))
+        if "rounds" in case:  # the whole history up to the failing reduce_size call
+            c["rounds"] = copy.deepcopy(case["rounds"])
+        elif "stop" in case:
+            c.update(stop=case["stop"], exc=case.get("exc", "KeyboardInterrupt"))
         return _explore(ctx, 1, "replay", cases=[c], malformed=False)
     return _explore(ctx, 4000 if ctx.thorough else 500, "main", big=ctx.thorough, memstr_n=20000 if ctx.thorough else 1000)
 
